@@ -4,7 +4,7 @@
    [prioritized_try] in ONE entry, IPv4 first then IPv6, each a well-formed CIDR of that family that
    overlaps no pod CIDR of a cached node; the PATCH goes to the processed node only; a failed or
    partial reservation never reaches a PATCH. *)
-From NIPAM Require Import Sys Alloc_proofs Inv_proofs Pool_proofs World_proofs.
+From NIPAM Require Import Sys Alloc_proofs Inv_proofs Pool_proofs World_proofs Path_proofs Term_proofs.
 Open Scope N_scope.
 
 (* what allocate_cidr hands out is a well-formed CIDR of the requested family *)
@@ -81,3 +81,26 @@ Proof.
   repeat constructor; cbn; try discriminate; try (intros ? E; discriminate E).
   all: try (unfold wf_cidr; cbn; repeat split; try lia; try reflexivity).
 Qed.
+
+(* ---------- C02 as one statement over histories (Term_proofs.v) ---------- *)
+(* every PATCH of every step of every history carries, for ONE entry e of the controller's state
+   - that is not marked terminating (no deletion request processed),
+   - whose selector the labels of the node -- as the work item saw it -- satisfy, or that has no selector,
+   exactly one block of each pool e has, the IPv4 one first.  [block g i] is the i-th per-node block of the range: inside
+   the range, prefix length = width - perNodeHostBits, aligned (C13).  "Accepted by the controller" is being an entry. *)
+Theorem C02_every_assignment_of_every_history :
+  forall po lab ops o w' ob, Forall wf_op ops ->
+  let w := run po lab init_world ops in
+  step po lab w o = (w', ob) ->
+  forall nm cs out, In (FxPatch nm cs out) (ob_fx ob) ->
+  exists m node, w_ctl w = Some m /\ nm = n_name node /\
+  exists p e, get_entry m p = Some e /\ cc_term e = false /\
+    (fst p = default_key \/ exists rs, po (fst p) = Some rs /\ fst (match_reqs (n_labels node) rs) = true) /\
+    match cc_v4 e, cc_v6 e with
+    | Some p4, Some p6 => exists i j, i < maxc (pg p4) /\ j < maxc (pg p6) /\ cs = [block (pg p4) i; block (pg p6) j]
+    | Some p4, None => exists i, i < maxc (pg p4) /\ cs = [block (pg p4) i]
+    | None, Some p6 => exists j, j < maxc (pg p6) /\ cs = [block (pg p6) j]
+    | None, None => cs = []
+    end.
+Proof. intros po lab ops o w' ob H w Hs nm cs out He. exact (history_assignment_ok po lab ops o w' ob H Hs nm cs out He). Qed.
+Print Assumptions C02_every_assignment_of_every_history.
